@@ -166,11 +166,57 @@ pub fn interleave(p: &mut Prng, mut queues: Vec<Vec<Value>>) -> Vec<Value> {
     out
 }
 
+/// As `interleave`, but now and then the next calls of two different sessions are made by two
+/// caller threads at once (`par`), interleaved by the simulator at its scheduling points.
+pub fn interleave_par(p: &mut Prng, mut queues: Vec<Vec<Value>>) -> Vec<Value> {
+    fn is_lib_call(op: &Value) -> bool {
+        let name = op.get("op").and_then(|v| v.as_str()).unwrap_or("");
+        (name.starts_with("sm2.") || name.starts_with("sm9.")) && op.get("impl").and_then(|v| v.as_str()) != Some("ref")
+    }
+    for q in queues.iter_mut() {
+        q.reverse();
+    }
+    let mut out = vec![];
+    loop {
+        let live: Vec<usize> = (0..queues.len()).filter(|i| !queues[*i].is_empty()).collect();
+        if live.is_empty() {
+            break;
+        }
+        let i = *p.pick(&live);
+        if live.len() >= 2 && p.chance(1, 3) {
+            let others: Vec<usize> = live.iter().copied().filter(|j| *j != i).collect();
+            let j = *p.pick(&others);
+            if is_lib_call(queues[i].last().unwrap()) && is_lib_call(queues[j].last().unwrap()) {
+                let (a, b) = (queues[i].pop().unwrap(), queues[j].pop().unwrap());
+                out.push(par(a, b, &par_order(p)));
+                continue;
+            }
+        }
+        out.push(queues[i].pop().unwrap());
+    }
+    out
+}
+
 /// Random interleaving order for a `par` op: which of the two caller threads proceeds at each
 /// scheduling point (op start, every RNG draw, op end).
 pub fn par_order(p: &mut Prng) -> String {
-    let n = p.range(2, 8);
-    (0..n).map(|_| if p.chance(1, 2) { 'A' } else { 'B' }).collect()
+    // One letter per scheduling point (op start, RNG draw, std::sync primitive). Half of the orders
+    // are uniformly random; the other half have few pre-emptions at random depths (runs of one
+    // caller of length 1..6), which is where check-then-act windows a few primitives wide are hit.
+    if p.chance(1, 2) {
+        let n = p.range(2, 12);
+        (0..n).map(|_| if p.chance(1, 2) { 'A' } else { 'B' }).collect()
+    } else {
+        let mut s = String::new();
+        let mut who = if p.chance(1, 2) { 'A' } else { 'B' };
+        for _ in 0..p.range(2, 5) {
+            for _ in 0..p.range(1, 6) {
+                s.push(who);
+            }
+            who = if who == 'A' { 'B' } else { 'A' };
+        }
+        s
+    }
 }
 
 pub fn par(a: Value, b: Value, order: &str) -> Value {
